@@ -1,0 +1,17 @@
+//go:build verif
+// +build verif
+
+package overlaydb
+
+// Verification-only export: NewOverlayDB with a caller chosen initial MemDB capacity (the
+// capacity is advisory; the default pre-allocates and zeroes 4 MiB per overlay, which dominates
+// the cost of property checks that need a fresh overlay per generated case). No logic.
+
+import "github.com/polynetwork/poly/core/store/common"
+
+func VerifNewOverlayDB(store common.PersistStore, capacity int, kvNum int) *OverlayDB {
+	return &OverlayDB{
+		store: store,
+		memdb: NewMemDB(capacity, kvNum),
+	}
+}
